@@ -280,9 +280,19 @@ def build_coq(targets=None, clean=False):
     with Lock("coq"):
         gen_extract()
         if clean:
-            sh(["make", "-f", "Makefile.coq", "clean"], cwd=COQ)
-            for f in glob.glob(os.path.join(COQ, "*.assum")):
-                os.remove(f)
+            # clean rebuild of exactly the files the requested targets depend on (coqdep -sort), so that a thorough run
+            # of one property re-proves its whole dependency cone without invalidating the others
+            roots = [t[:-3] + ".v" for t in (targets or []) if t.endswith(".vo") and os.path.exists(os.path.join(COQ, t[:-3] + ".v"))]
+            if roots:
+                rc, o = sh(["coqdep", "-Q", ".", "LP", "-sort"] + roots, cwd=COQ)
+                cone = [os.path.basename(x) for x in o.split() if x.endswith(".v")]
+            else:
+                cone = coq_files()
+            for v in cone:
+                for ext in (".vo", ".vok", ".vos", ".glob", ".assum"):
+                    f = os.path.join(COQ, v[:-2] + ext)
+                    if os.path.exists(f):
+                        os.remove(f)
         proj = "-Q . LP\n" + "\n".join(coq_files()) + "\n"
         pf = os.path.join(COQ, "_CoqProject")
         if not os.path.exists(pf) or open(pf).read() != proj:
